@@ -366,12 +366,14 @@ def rand_payload(rng, n):
     return bytes(rng.choice([0xb5, 0x62, 0, 0xff]) if rng.random() < .2 else rng.randrange(256) for _ in range(n))
 
 
-def answer_frames(rng, kind, cls_, id_, minlen):
-    """one frame of the kind the request waits for, right or wrong in one of the ways that matter"""
+def answer_frames(rng, kind, cls_, id_, minlen, echo=None):
+    """one frame of the kind the request waits for, right or wrong in one of the ways that matter; `echo`: what an MGA-ACK may
+    carry as the start of the acknowledged message's payload - this request's, or an EARLIER MGA message's (a late ACK)"""
     t = rng.random()
     if kind == 'mga':
         ty = rng.choice([1, 1, 1, 0, 2, 255])
-        return frame(0x13, 0x60, [ty, 0, rng.randrange(256), id_, 1, 2, 3, 4][:rng.choice([8, 8, 8, 3, 0])])
+        start = list(rng.choice(echo)) if echo and rng.random() < 0.7 else [1, 2, 3, 4]
+        return frame(0x13, 0x60, ([ty, 0, rng.randrange(256), id_] + start)[:rng.choice([8, 8, 8, 3, 0])])
     if kind == 'set' or (kind == 'poll' and cls_ == 6 and t < 0.5):
         u = rng.random()
         if u < 0.55:
@@ -520,6 +522,9 @@ class Link:
         self.sent.append(bytes(data))
         if len(self.sent) > 200:
             raise Runaway()
+        # a transmission that takes time on the clock the library reads (a blocking write at a low bit rate, a slow control
+        # socket): what the receiver does is timed from the END of the transmission
+        CLK.ticks += self.sc.get('txtime', 0)
         r = self.sc['reqs'][self.cur]
         a = self.attempt
         self.attempt += 1
@@ -759,6 +764,10 @@ def make_gpsd(link):
 def new_server(sc, fresh_factory=True, **kw):
     if fresh_factory:
         FrameFactory.destroy()
+    if sc.get('background') and 'pending' not in kw:
+        # a receiver that talks all the time, asked or not: a periodic message (5 to 20 Hz) from the start of the scenario on
+        period, h = sc['background']
+        kw['pending'] = [(T0 + k * period, bytes.fromhex(h)) for k in range(1, 40000 // period)]
     link = Link(sc, **kw)
     backend = sc.get('backend', 'base')
     t = CLK.ticks
@@ -832,8 +841,8 @@ def real_seqs(line):
 def model_line_seqs(line):
     """the recorded back-end trace as the model's environment"""
     sc = json.loads(line.split('|', 1)[1])
-    if sc.get('boom'):
-        return 'no-model'
+    if sc.get('boom') or sc.get('txtime'):
+        return 'no-model'              # (the model's transmissions take no time)
     s, outs, starts, per_req = run_sequence(sc)
     return '|'.join(['seq', str(sc['retries']), str(sc['delay']), ','.join('1' if t else '0' for t in s.tx_trace),
                      ','.join(f'{dt}:{d.hex()}' for dt, d in s.rx_trace),
@@ -873,8 +882,8 @@ def oracles_seqs(line, real_out):
         w = None if boomed else check_result(r['kind'], r['cid'][0], r['cid'][1], resp_tag, outs[i], stream)
         why4 = why4 or (w and f'request {i}: {w}')
         t0, t1 = starts[i][0], s.ends[i]
-        bound = time_bound_ticks(r['kind'], r['cid'][0], sc['retries'], sc['delay'], tmax)
         nsent = len(per_req[i])
+        bound = time_bound_ticks(r['kind'], r['cid'][0], sc['retries'], sc['delay'], tmax) + nsent * sc.get('txtime', 0)
         if r['kind'] == 'faf':
             if nsent != 1 or 'r' in s.calls[c0:c1]:
                 why5 = why5 or f'request {i}: fire_and_forget made {nsent} transmissions / read'
@@ -1024,6 +1033,8 @@ def gen_c06(rng):
     expect = [K, f'{acid[0]}/{acid[1]}:{tag}:{apl.hex()}']
     nested = {}
     if rng.random() < 0.15:
+        nested = {'txtime': rng.choice([1, dticks // 4, dticks // 2, dticks - 1, dticks, 2 * dticks])}
+    elif rng.random() < 0.15:
         nested = {'nested': {'req': len(history), 'at': rng.choice([1, 2, 3, 4, 6]), 'where': rng.choice(['receive', 'receive', 'recover'])}}
     return {**nested, 'retries': retries, 'delay': delay, 'chunk': chunk, 'timeout': timeout, 'backend': pick_backend(rng, chunk, timeout),
             'reqs': history + [{'kind': kind, 'cid': [cls_, id_], 'payload': rand_payload(rng, rng.choice([0, 1, 6])).hex(), 'resp': str(minlen),
@@ -1039,13 +1050,19 @@ def gen_sequence(rng):
     reqs = []
     prev = None
     earlier = []
+    earlier_mga = []
     for _ in range(nreq):
-        kind = rng.choice(['set', 'set', 'mga', 'poll', 'poll', 'faf'])
+        kind = rng.choice(['set', 'set', 'mga', 'mga', 'poll', 'poll', 'faf'])
         cls_, id_ = (0x13, 0x40) if kind == 'mga' else pick_req_cid(rng, REQ_CIDS[:4])
         if prev and rng.random() < 0.3 and kind != 'mga':
             cls_, id_ = prev                         # the same class/id again, as another kind of request
         prev = (cls_, id_) if kind != 'mga' else prev
         minlen = rng.choice([0, 2, 6])
+        payload = rand_payload(rng, rng.choice([0, 1, 6]))
+        echo = None
+        if kind == 'mga':
+            echo = [bytes(payload[:4]).ljust(4, b'\x00')] + earlier_mga
+            earlier_mga = [echo[0]] + earlier_mga[:2]
         timelines = []
         for a in range(retries + 1):
             tl = []
@@ -1059,7 +1076,7 @@ def gen_sequence(rng):
                         ec, ei, em = rng.choice(earlier)
                         pieces.append(frame(ec, ei, rand_payload(rng, em + rng.choice([0, 2]))) if rng.random() < 0.7 else frame(5, 1, [ec, ei]))
                     elif u < 0.82:
-                        pieces.append(answer_frames(rng, kind if kind != 'faf' else 'set', cls_, id_, minlen))
+                        pieces.append(answer_frames(rng, kind if kind != 'faf' else 'set', cls_, id_, minlen, echo))
                     else:
                         pieces.append(noise(rng))
                 data = b''.join(pieces)
@@ -1067,7 +1084,7 @@ def gen_sequence(rng):
                     data = data[:rng.randrange(1, len(data))]       # truncated frame at the end
                 tl.append((max(1, off), data.hex()))
             timelines.append(tl)
-        reqs.append({'kind': kind, 'cid': [cls_, id_], 'payload': rand_payload(rng, rng.choice([0, 1, 6])).hex(), 'resp': str(minlen),
+        reqs.append({'kind': kind, 'cid': [cls_, id_], 'payload': payload.hex(), 'resp': str(minlen),
                      'tx': [rng.random() < 0.88 for _ in range(retries + 1)], 'timelines': timelines})
         if kind == 'poll':
             earlier.append((cls_, id_, minlen))
@@ -1078,6 +1095,10 @@ def gen_sequence(rng):
         sc['baud'] = rng.choice(BAUDS)          # the line speed was switched after the port was opened
     if rng.random() < 0.2:
         sc['bystander'] = True
+    if rng.random() < 0.15:
+        sc['background'] = [rng.choice([50, 100, 200, 250]), rng.choice([frame(1, 7, rand_payload(rng, 8)), b'$GPGGA,1,2*33\r\n', frame(0x10, 2, rand_payload(rng, 4))]).hex()]
+    if rng.random() < 0.08:
+        sc['txtime'] = rng.choice([1, dticks // 2, dticks, 3 * dticks])
     if rng.random() < 0.08 and len(reqs) > 1:
         sc['boom'] = {'req': rng.randrange(len(reqs) - 1), 'at': rng.choice([1, 1, 2, 3, 6]),
                       'exc': rng.choice(['KeyboardInterrupt', 'OSError', 'SerialException'])}
@@ -1455,6 +1476,9 @@ def gen_scan1(rng, n, profile):
                 stream += frame(rng.choice([1, 5, 6]), rng.randrange(4), bytes(rng.randrange(256) for _ in range(rng.choice([0, 2, 8]))))
             elif k < .45:
                 stream += nm if rng.random() < .8 else b'$GP*18\r\n'
+                if rng.random() < .25:
+                    import comp_parsers
+                    stream += comp_parsers.long_sentence(rng) * rng.choice([1, 2, 2]) if rng.random() < .8 else comp_parsers.long_sentence(rng, False) * 2
             elif k < .55:
                 # sentences of every kind: bytes >= 0x80 in the body or between the checksum digits, right and wrong checksums
                 import comp_parsers
